@@ -6,65 +6,65 @@ E1 = "E1 symtorch: real torchsde code traced through torch dispatch with symboli
 E2 = "E2 symx: concolic execution of the real scalar control code, z3 decides path feasibility and per-path assertions"
 CLAIMED = {
  'C01': dict(engine='E1+E2', technique='symbolic step-series of the real solver step at the order read from the real solver object + loop-tiling proof (z3); Milstein fundamental theorem trusted',
-             text='Bounded symbolic check of the local conditions (mean O(h^{p+1}), mean-square O(h^{p+1/2})) that imply strong order p by the fundamental theorem of mean-square convergence, for every accepted (sde_type, method, noise_type, grad_free) with p read from the real solver; plus the proof that consecutive steps consume bm(t_k,t_{k+1}) on the tiling of [ts0, ts_end]. The limit itself is not decidable by a bounded query.',
-             note='trusted: Milstein fundamental theorem, Ito/Stratonovich-Taylor expansion (vt/taylor.py), per-op ATen handlers (validated against the real kernels on every run), z3; generic polynomial f,g of degree (1,3), d<=2', ref='4/C01'),
+             text='Bounded symbolic check of the local conditions (mean O(h^{p+1}), mean-square O(h^{p+1/2})) that imply strong order p by the fundamental theorem of mean-square convergence, for every accepted (sde_type, method, noise_type, grad_free) with p read from the real solver; plus the proof that consecutive steps consume bm(t_k,t_{k+1}) on the tiling of [ts0, ts_end], that step() does not depend on the solver object's history (every step is the analysed step), and the adaptive-loop invariants (accepted state = two half steps over its own interval, rejected trials leave time and state untouched). The limit itself is not decidable by a bounded query.',
+             note='trusted: Milstein fundamental theorem, Ito/Stratonovich-Taylor expansion (vt/taylor.py), per-op ATen handlers (validated against the real kernels on every run), z3; generic polynomial f,g of degree (1,3) at d=1, affine (quick) / degree (1,2) (thorough) at d=2; reversible Heun: one step from a consistent state', ref='4/C01'),
  'C02': dict(engine='E1', technique='real solver.step traced symbolically; graded power-series coefficients vs Ito/Stratonovich-Taylor oracle decided by z3 for all jets of f,g',
-             text='For every accepted solver/noise-type/option combination the real step() is executed on symbolic (t,y,h,dW,U,A) with generic polynomial f,g whose coefficients are symbols; every series coefficient of grade <= 2p and the Gaussian expectation to grade 2p+1 are proved equal to the stochastic Taylor expansion for all coefficient values (z3), Euler/Milstein textbook formulas exactly.',
-             note='bounds: d<=2, m<=2, degree (1,3), one step; trusted: oracle in vt/taylor.py, ATen handlers (validated per run), z3', ref='4/C02'),
+             text='For every accepted solver/noise-type/option combination the real step() is executed on symbolic (t,y,h,dW,U,A) with generic polynomial f,g whose coefficients are symbols; every series coefficient of grade <= 2p and the Gaussian expectation to grade 2p+1 are proved equal to the stochastic Taylor expansion for all coefficient values (z3), Euler/Milstein textbook formulas exactly; step() on a used solver object is the identical operation DAG as on a fresh one (no hidden per-instance state).',
+             note='bounds: d=1 degree (1,3) (SRK diagonal/scalar (1,2) in quick), d=2,m=2 affine (quick) / degree (1,2) (thorough), one step; trusted: oracle in vt/taylor.py, ATen handlers (validated per run), z3', ref='4/C02'),
  'C03': dict(engine='E2', technique='concolic exploration of the real BrownianInterval/_Interval code over symbolic query times and histories; Chen identities proved per path by z3 coefficient-wise',
-             text='All feasible paths of the real tree code for <=1 (quick) / <=2 (thorough) symbolic prior queries followed by a symbolic triple s<u<t are executed; on each, additivity of W, Chen relation for U, zero-length queries, antisymmetry and Chen fold of A, the location lemma and the tree-partition invariant are proved for all times following that path.',
+             text='All feasible paths of the real tree code for <=1 (quick) / <=2 (thorough) symbolic prior queries followed by a symbolic triple s<u<t are executed; on each, additivity of W, Chen relation for U, zero-length queries, antisymmetry and Chen fold of A, the location lemma and the tree-partition invariant are proved for all times following that path; every path is re-executed on float64 times on the unpatched module (comparisons decided by rounding).',
              note='bounds as in evidence; real arithmetic for float64; histories beyond the bound argued by the per-path tree invariants (stated induction)', ref='4/C03'),
  'C04': dict(engine='E2', technique='exact covariance of the linear map noise->outputs of the real bridge code, symbolic split point / end points, z3 (NRA with algebraic square roots)',
-             text='Single-split covariance lemma for an arbitrary parent interval and split ratio, top-level law with symbolic end points, partition covariances after symbolic histories (W) and exact algebraic checks at rational times (H, deep trees), Davie/Foster conditional mean and variance, seed distinctness and noise shapes, all on the real code.',
+             text='Single-split covariance lemma for an arbitrary parent interval and split ratio, top-level law with symbolic end points, partition covariances after symbolic histories (W) and exact algebraic checks at rational times (H, deep trees), Davie/Foster conditional mean and variance on a stored piece and on a query merged from two pieces (antisymmetry, mean given the pieces, variance), seed distinctness (one-step induction on the real spawn-key code) and noise shapes, all on the real code; tolerance mode on resolved (grid) times.',
              note='Gaussianity from linearity in independent N(0,1) symbols; independence of streams with distinct (seed,shape) is the documented contract of torch.Generator / SeedSequence (assumed)', ref='4/C04'),
  'C05': dict(engine='E2', technique='structural identity of hash-consed float-operation DAGs of repeated answers on every concolic path; z3 decides value equality where structures differ',
-             text='On every path of the real code for symbolic histories/interleavings (cache sizes 0,1,2,3,45,None, forced tree refinement, all Levy modes) the second answer is the same float-operation DAG as the first and the concrete kernels give equal bits; earlier returned tensors are not mutated.',
+             text='On every path of the real code for symbolic histories/interleavings (cache sizes 0,1,2,3,45,None, forced tree refinement, a time axis through 0, all Levy modes) the second answer is the same float-operation DAG as the first and the concrete kernels give equal bits; earlier returned tensors are not mutated.',
              note='bit-identity rests on IEEE determinism of identical operation sequences', ref='4/C05'),
  'C06': dict(engine='E2', technique='DAG identity across two real objects with the same entropy, and fresh-vs-used object in dyadic mode, on every concolic path',
-             text='Same entropy/options/query sequence => identical value DAGs and bits; in halfway_tree mode (and BrownianTree) the value of a symbolic grid query is the same DAG on a fresh object and after arbitrary symbolic prior queries.',
+             text='Same entropy/options/query sequence => identical value DAGs and bits; in halfway_tree mode (and BrownianTree) the value of a symbolic grid query is the same DAG on a fresh object and after arbitrary symbolic prior queries, including histories of single-argument point queries on a BrownianTree with non-zero w0; entropies include 0.',
              note='entropy values concrete (SeedSequence is C code); "different entropies give different paths" outside the claim', ref='4/C06'),
  'C07': dict(engine='E2+E3', technique='concolic exploration of constructor/__call__ with arbitrary real query times (off-grid, sub-tolerance) for crashes; frame-depth monitor on symbolic chains; CrossHair on _LRUDict',
-             text='Any exception other than the documented one on a feasible path, a cache larger than cache_size, or a per-call frame depth that grows along a chain-shaped history is a counterexample (replayed on floats with the default recursion limit).',
+             text='Any exception other than the documented one on a feasible path, a cache larger than cache_size, or a per-call frame depth that grows along a chain-shaped history is a counterexample (replayed on floats with the default recursion limit); the configuration sdeint builds by default is read back from the real check_contract and explored.',
              note='long histories decided through history-independence of the frame depth on small chains', ref='4/C07'),
  'C08': dict(engine='E1', technique='real sdeint + real autograd traced symbolically; gradient DAG vs symbolic derivative of the forward DAG (exact polynomial normal form, residual decided by z3)',
-             text='For every solver x noise type x grad_free, two fixed steps and an interpolated output with symbolic y0, parameters, increments and loss weights: each autograd gradient component equals the symbolic derivative of the traced numerical solution for all symbol values.',
+             text='For every solver x noise type x grad_free, two fixed steps and an interpolated output with symbolic y0, parameters, increments and loss weights: each autograd gradient component equals the symbolic derivative of the traced numerical solution for all symbol values; also with a plain y0 (parameter gradients only).',
              note='exact derivative replaces finite differences; bounds d<=2, 2 steps, degree (1,2)', ref='4/C08'),
  'C09': dict(engine='E1', technique='real sdeint_adjoint vs sdeint traced symbolically: forward DAG identity, gradient-structure observations, exact rational-function equality of adjoint and backprop gradients in the exactly solvable case (z3 on the residual)',
-             text='sdeint_adjoint forward values are the identical float-operation DAG as sdeint for every accepted (sde_type, method, noise_type, grad_free); only y0 and requested adjoint parameters receive gradients; for autonomous affine drift + additive noise with Euler both ways the adjoint gradient equals backprop exactly for arbitrary loss weights on 2-3 output times. Convergence as dt->0 is reduced to C11 + C03/C05 + solver order (stated), not decided.',
+             text='sdeint_adjoint forward values are the identical float-operation DAG as sdeint for every accepted (sde_type, method, noise_type, grad_free); only y0 and requested adjoint parameters receive gradients; for autonomous affine drift + additive noise with Euler both ways the adjoint gradient equals backprop exactly for arbitrary loss weights on 2-3 output times. Every backward segment starts from the stored forward output with the selected adjoint solver; the adjoint vector fields equal the prescribed ones (the C11 obligations, discharged here as the lemma of the reduction). Convergence as dt->0 is reduced to this lemma + C03/C05 + solver order (stated), not decided.',
              note='the dt->0 limit and finite-dt agreement with closed forms are outside; d<=2, m<=2', ref='4/C09'),
  'C10': dict(engine='E1', technique='both gradient computations of the real code (adjoint_reversible_heun vs backprop through reversible_heun) traced symbolically; equality as real polynomial functions (normal form + z3 residual)',
-             text='For all four noise types, 2 steps with quadratic f,g (3-4 with affine), arbitrary loss weights on all output times: every gradient component (y0 and each parameter) from sdeint_adjoint equals the backprop gradient for all symbol values; forward DAGs identical.',
+             text='For all four noise types, 2 steps with quadratic f,g (3 with affine), arbitrary loss weights on all output times: every gradient component (y0 and each parameter) from sdeint_adjoint equals the backprop gradient for all symbol values; forward DAGs identical; variants: y0 without grad, loss also on the returned extras, adjoint_params a subset.',
              note='algebraic identity over the reals; float rounding magnitude (1e-9) reported by the replay only', ref='4/C10'),
  'C16': dict(engine='E1', technique='DAG identity of real sdeint runs over interface variants; derived operators vs definitions built with dag.diff, polynomial normal form + z3 residual',
              text='For every accepted solver configuration the SDE exposed via f_and_g, f+g_prod, f_and_g_prod, f_and_g+g_prod, renamed via names, or all methods gives the identical operation DAG as the f+g baseline, or fails with the explicit missing-method error; g_prod, the Milstein g dg v term (all noise types) and both dg_ga_jvp_column_sum implementations equal their definitions for all symbol values.',
              note='user-supplied products written with the kernels the library uses (g*v, bmm)', ref='4/C16'),
  'C17': dict(engine='E1', technique='real sdeint on a special-noise SDE and on its general-noise embedding, same symbolic increments; equality as real functions (normal form + z3 residual)',
-             text='diagonal / scalar / additive declarations vs the general declaration with (batch,d,m) diffusion matrices, for euler, euler_heun, heun, midpoint, reversible_heun, log_ode (antisymmetric symbolic Levy area): every output component equal for all symbol values.',
+             text='diagonal / scalar / additive declarations vs the general declaration with (batch,d,m) diffusion matrices, for euler, euler_heun, heun, midpoint, reversible_heun, log_ode (antisymmetric symbolic Levy area): every output component equal for all symbol values, also at batch 2 with a per-row diffusion factor; the adaptive controller (real integrate + update_step_size on symbolic error estimates) walks the same mesh whatever order / noise type the solver object declares.',
              note='equality over the reals (different float operations by construction)', ref='4/C17'),
  'C18': dict(engine='E1', technique='real sdeint(logqp=True) traced symbolically (pinverse intercepted as (g^T g)^-1 g^T); identities by rational normal form + z3 residual, non-negativity by z3',
-             text='State trajectory DAG identical to the run without logqp; output shape (T-1, batch); exact value 1/2|c|^2 (t_i - t_{i-1}) when f-h = g c (single-stage solvers for all noise types, all solvers for diagonal/additive except SRK-diagonal); Euler increments equal 1/2|g^+(f-h)|^2 dt at the grid states for all four noise types; non-negativity where z3 decides it.',
-             note='regular branch of stable_division / full column rank assumed; cases whose normal form does not cancel within budget are listed as outside', ref='4/C18'),
+             text='State trajectory DAG identical to the run without logqp; output shape (T-1, batch); exact value 1/2|c|^2 (t_i - t_{i-1}) when f-h = g c (single-stage solvers for all noise types, all solvers for diagonal/additive except SRK-diagonal); Euler increments equal 1/2|g^+(f-h)|^2 dt at the grid states for all four noise types; non-negativity where z3 decides it; the stable_division guard selects the regular branch on the whole domain |g| > 1e-7; batch 2 for Euler.',
+             note='|g| > 1e-7 / full rank of g assumed (the code\'s guard is proved to agree with that domain); cases whose normal form does not cancel within budget are listed as outside', ref='4/C18'),
  'C19': dict(engine='E2', technique='concolic enumeration of symbolic enum/int-valued options through the real sdeint/sdeint_adjoint front end (z3 decides branch feasibility; coverage = size of the product), oracle table from DOCUMENTATION.md',
              text='Full forward product (2816 combinations incl. invalid/None method, bm given or not, adaptive, logqp): ValueError before integrate iff unsupported, documented default method and default Levy area; adjoint product: unsupported adjoint methods raise during backward, supported ones complete; bm shapes in 1..3 and all 32 interface subsets: ValueError iff inconsistent/missing; further malformed-argument classes by concrete observation.',
              note='support table transcribed from the documentation; exceptions raised inside user-supplied g_prod when probed with an inconsistent bm count as refused', ref='4/C19'),
  'C11': dict(engine='E1', technique='real AdjointSDE on a real ForwardSDE traced through autograd (double backward included); z3 equality with the prescribed fields built from dag.diff of the traced f,g',
-             text='All 2x4 (sde_type, noise_type) combinations, symbolic (t,y,a,v,params incl. an unused one): drift, diffusion-vector product and diagonal Milstein term equal the mathematically prescribed quantities (independently derived closed form incl. the Ito conversion terms); graph discipline under no_grad / enable_grad observed.',
+             text='All 2x4 (sde_type, noise_type) combinations, symbolic (t,y,a,v,params incl. an unused one): drift, diffusion-vector product, the fused f_and_g_prod and the diagonal Milstein term equal the mathematically prescribed quantities (independently derived closed form incl. the Ito conversion terms); graph discipline under no_grad / enable_grad observed.',
              note='bounds d=2, m=2, degree (1,2)', ref='4/C11'),
  'C12': dict(engine='E2', technique='concolic execution of the real BaseSDESolver.integrate / linear_interp over symbolic ts and dt; grid, interpolation and invariance assertions proved per path by z3',
-             text='All paths for <=4 output times / <=3 steps (quick): step k is [ts0+k dt, min(ts0+(k+1)dt, ts_end)], ys[0] is y0, outputs are the grid state or the linear interpolant of the neighbouring grid states, removing/adding an output time leaves the others unchanged; shape/dtype by a finite sweep of real sdeint calls.',
+             text='All paths for <=4 output times / <=3 steps (quick): step k is [ts0+k dt, min(ts0+(k+1)dt, ts_end)], ys[0] is y0, outputs are the grid state or the linear interpolant of the neighbouring grid states, removing/adding an output time leaves the others unchanged; shape/dtype, and list-vs-tensor ts giving identical values under the library default dtype, by a finite sweep of real sdeint calls.',
              note='step treated as an arbitrary function; real arithmetic', ref='4/C12'),
  'C13': dict(engine='E1+E2', technique='identical float-operation DAGs of chunked vs one-shot real sdeint runs (modulo IEEE-exact 1*x, 0*x, x+0); step-interval equality for symbolic t0/dt by concolic execution of the real integrate loop + z3',
-             text='Every accepted solver x noise type (+grad_free): solving [t0,t2] at once and in 2-3 chunks restarted from the returned final state and extra solver state, with the same Brownian object and restart points on the dt grid, gives the identical operation DAG (hence identical bits); reversible Heun restarted WITHOUT its extra state differs (twin). Chunk step intervals equal the one-shot ones for symbolic t0, dt and a clipped last step.',
+             text='Every accepted solver x noise type (+grad_free): solving [t0,t2] at once and in 2-3 chunks restarted from the returned final state and extra solver state, with the same Brownian object and restart points on the dt grid (final time on or off the grid), gives the identical operation DAG (hence identical bits); reversible Heun restarted WITHOUT its extra state differs (twin). Chunk step intervals equal the one-shot ones for symbolic t0, dt and a clipped last step.',
              note='dyadic dt so that grid times are exact floats; float drift of accumulated times for non-dyadic dt is outside', ref='4/C13'),
  'C14': dict(engine='E2+E1', technique='concolic execution of the real adaptive loop + real update_step_size with arbitrary error estimates (nondeterministic stub) and an uninterpreted real power; error norm formula by z3',
              text='Per-trial invariants on every schedule within the trial bound: trial interval, halves, accept iff e<=1 or at dt_min, rejected steps leave state untouched and shrink, accepted state is the two-half-step one, final time exactly ts[-1]; compute_error equals the mixed rtol/atol RMS norm.',
              note='precondition dt>=dt_min>0; termination via stated ranking argument', ref='4/C14'),
  'C15': dict(engine='E1', technique='real ReversibleHeun.step with uninterpreted drift/diffusion function symbols, real ReverseBrownian; z3 (EUF+NRA) proves the reverse step inverts the forward step',
-             text='For all four noise types, symbolic step sizes, 1-3 steps: the reverse solve on the negated time-reversed SDE reconstructs (y, z, -f, -g) of every forward state exactly, for ALL f and g.',
+             text='For all four noise types, symbolic step sizes, 1-3 steps: the reverse solve on the negated time-reversed SDE reconstructs (y, z, -f, -g) of every forward state exactly, for ALL f and g, whatever Levy area the Brownian motion advertises.',
              note='real arithmetic; numerical stability outside', ref='4/C15'),
 }
 CLAIMED['C20'] = dict(engine='E1+E2', technique='support (reachable input symbols) of the output DAG rows of real sdeint runs, z3 where a foreign symbol occurs syntactically; DAG identity under row permutation; support of real BrownianInterval outputs per element',
-             text='For every accepted solver configuration with batch 2-3: output row i mentions only row-i symbols of y0 and of the Brownian increments (plus shared parameters), permuting input rows permutes the output DAGs; each element of a BrownianInterval sample (W, U, A) depends only on its own noise element(s), noise drawn at the full sample shape.',
+             text='For every accepted solver configuration with batch 2-3: output row i mentions only row-i symbols of y0 and of the Brownian increments (plus shared parameters), permuting input rows permutes the output DAGs, also for the log-ratio output of logqp=True; each element of a BrownianInterval sample (W, U, A) depends only on its own noise element(s), noise drawn at the full sample shape.',
              note='row-wise user SDE; a deliberately coupled SDE is flagged (twin)', ref='4/C20')
 PENDING = {
  'C13': 'harness under construction (chunked vs one-shot DAG identity)',
